@@ -6,14 +6,14 @@
 (* against the definitions of Dcs.tla / Geometry.tla; rows are consumed in *)
 (* chunks, one chunk per step.                                             *)
 (***************************************************************************)
-EXTENDS Integers, Sequences, FiniteSets, TLC, Json, IOUtils, SequencesExt, Geometry, Dcs
+EXTENDS Integers, Sequences, FiniteSets, TLC, Json, IOUtils, SequencesExt, Geometry, Dcs, TestImage
 
 Rec == ndJsonDeserialize(IOEnv.TRACE)
 CHUNK == 200
 
 VARIABLE s
 vars == <<s>>
-Init == s = [l |-> 1, bad |-> <<>>, rows |-> 0]
+Init == s = [l |-> 1, bad |-> <<>>, rows |-> 0, drift |-> 0]
 
 O(v) == [rot |-> v[1], mir |-> v[2]]
 Tail16Is(buf, n, fill) == \A i \in (n + 1) .. 16 : buf[i] = fill
@@ -112,38 +112,14 @@ RoundTrip666(in) == \A i \in 0 .. in[2] - 1 : LET c == Col666(in, i)  e == Enc66
                       Dec18x8(e[1], e[2], e[3]) = c /\ e[1] % 4 = 0 /\ e[2] % 4 = 0 /\ e[3] % 4 = 0
 
 ---------------------------------------------------------------------------
-\* C19: predicates on the real picture (classes: 0 black 1 white 2 red 3 green 4 blue 5 other 9 untouched)
-RowAt(row, x) ==   \* class at column x (0-based) of a run-length encoded row
-  LET F[i \in 0 .. Len(row)] == IF i = 0 THEN 0 ELSE F[i - 1] + row[i][2]
-      k == CHOOSE i \in 1 .. Len(row) : F[i - 1] <= x /\ x < F[i]
-  IN row[k][1]
-Expand(rows, w, h) == [p \in (0 .. w - 1) \X (0 .. h - 1) |-> RowAt(rows[p[2] + 1], p[1])]
-AllPainted(pic) == \A p \in DOMAIN pic : pic[p] # 9
-WhiteFrameExact(pic, w, h) ==
-  /\ \A p \in DOMAIN pic : (p[1] \in {0, w - 1} \/ p[2] \in {0, h - 1}) => pic[p] = 1
-  /\ \A p \in DOMAIN pic : (p[1] \in 1 .. w - 2 /\ p[2] \in 1 .. h - 2 /\ (p[1] \in {1, w - 2} \/ p[2] \in {1, h - 2})) => pic[p] # 1
-RGBOrdered(pic) ==
-  LET xs(c) == {p[1] : p \in {q \in DOMAIN pic : pic[q] = c}} IN
-  /\ xs(2) # {} /\ xs(3) # {} /\ xs(4) # {}
-  /\ \A a \in xs(2), b \in xs(3) : a < b
-  /\ \A a \in xs(3), b \in xs(4) : a < b
-Asymmetric(pic, w, h) ==
-  /\ \E p \in DOMAIN pic : pic[p] # pic[<<w - 1 - p[1], p[2]>>]
-  /\ \E p \in DOMAIN pic : pic[p] # pic[<<p[1], h - 1 - p[2]>>]
-  /\ \E p \in DOMAIN pic : pic[p] # pic[<<w - 1 - p[1], h - 1 - p[2]>>]
-  /\ w # h \/ ( /\ \E p \in DOMAIN pic : pic[p] # pic[<<p[2], p[1]>>]
-                /\ \E p \in DOMAIN pic : pic[p] # pic[<<h - 1 - p[2], w - 1 - p[1]>>]
-                /\ \E p \in DOMAIN pic : pic[p] # pic[<<p[2], w - 1 - p[1]>>]
-                /\ \E p \in DOMAIN pic : pic[p] # pic[<<h - 1 - p[2], p[1]>>] )
 TestImageBad(in, out) ==
   LET w == in[2]  h == in[3] IN
   IF out[1] # "ok" THEN "drawing the test image panicked"
   ELSE IF w < 32 \/ h < 32 THEN ""
-  ELSE LET pic == Expand(out[2], w, h) IN
-       IF ~AllPainted(pic) THEN "a pixel was left unpainted"
-       ELSE IF ~WhiteFrameExact(pic, w, h) THEN "no exact one-pixel white frame on the outermost rows and columns"
-       ELSE IF ~RGBOrdered(pic) THEN "no pure red region left of a pure green region left of a pure blue region"
-       ELSE IF ~Asymmetric(pic, w, h) THEN "the picture equals one of its rotated / mirrored versions" ELSE ""
+  ELSE GoodPicture(Expand(out[2], w, h), w, h)
+\* DRIFT: the real picture differs from the model of the drawing program (not an alarm)
+TestImageDrift(r) == r.f = "testimage" /\ r.res = "ok" /\ r.out[1] = "ok" /\ r.in[2] > 0 /\ r.in[3] > 0 /\ r.in[2] <= 64 /\ r.in[3] <= 64
+                     /\ Expand(r.out[2], r.in[2], r.in[3]) # TestImagePic(r.in[2], r.in[3])
 
 ---------------------------------------------------------------------------
 RowBad(r) ==
@@ -179,11 +155,12 @@ Next ==
          new == [j \in 1 .. Cardinality(idx) |->
                    LET i == CHOOSE i \in idx : Cardinality({k \in idx : k < i}) = j - 1 IN
                    [row |-> i, f |-> Rec[i].f, in |-> Rec[i].in, what |-> RowBad(Rec[i])]]
-     IN s' = [l |-> hi + 1, bad |-> s.bad \o new, rows |-> s.rows + (hi - s.l + 1)]
+     IN s' = [l |-> hi + 1, bad |-> s.bad \o new, rows |-> s.rows + (hi - s.l + 1),
+              drift |-> s.drift + Cardinality({i \in s.l .. hi : TestImageDrift(Rec[i])})]
 Spec == Init /\ [][Next]_vars
 
 Final == (s.l = Len(Rec) + 1) =>
            /\ PrintT(<<"VIOL", ToJson(s.bad)>>)
-           /\ PrintT(<<"STAT", ToJson([rows |-> s.rows])>>)
+           /\ PrintT(<<"STAT", ToJson([rows |-> s.rows, drift |-> s.drift])>>)
 Consumed == TLCGet("stats").diameter - 1 = (Len(Rec) + CHUNK - 1) \div CHUNK
 =============================================================================
